@@ -14,7 +14,7 @@ use crate::e2e::*;
 use crate::engine::*;
 use crate::{vensure, vfail};
 
-pub const RULE: &str = "fault enumeration: case = (tracker in {udp-mio, udp-uring, http, ws}, worker kind (socket, swarm, cleaning, statistics, signals, prometheus; detached connection task, cleaning timer task), worker index, worker counts 1..3, fault in {panic, return, set-up failure (unbindable address, occupied prometheus port, reverse-proxy request without header)}, moment in {at start, after k served requests, while idle}). Each case runs in a child process that starts the tracker, serves k requests, arms a probe handler (feature verif) that panics or returns in exactly the chosen worker thread, triggers the worker's loop if needed (a request, a connection, SIGUSR1) and measures the time from the fault to run() returning. Oracle: run() returns an error within 10 s of the fault; a tracker still running 20 s after the fault is a violation; a fault that never fires is undecided. non-trivial = the faulted worker is not the only worker of the tracker; distinct = distinct (tracker, worker, index, counts, fault, moment) tuple";
+pub const RULE: &str = "fault enumeration: case = (tracker in {udp-mio, udp-uring, http, ws}, worker kind (socket, swarm, cleaning, statistics, signals, prometheus; detached connection task, cleaning timer task), worker index, worker counts 1..3, fault in {panic, return, set-up failure (unbindable address, occupied prometheus port, reverse-proxy request without header)}, moment in {at start, after k served requests, after 17 / 45 (thorough also 33 / 70) seconds of serving}). Each case runs in a child process that starts the tracker, serves k requests, arms a probe handler (feature verif) that panics or returns in exactly the chosen worker thread, triggers the worker's loop if needed (a request, a connection, SIGUSR1) and measures the time from the fault to run() returning. Oracle: run() returns an error within 10 s of the fault; a tracker still running 20 s after the fault is a violation; a fault that never fires is undecided. non-trivial = the faulted worker is not the only worker of the tracker; distinct = distinct (tracker, worker, index, counts, fault, moment) tuple";
 
 #[derive(Debug, Clone, Copy, Serialize, Deserialize, PartialEq, Eq, Hash)]
 pub enum Trk {
@@ -41,6 +41,9 @@ pub struct Case {
     pub fault: Fault,
     /// requests served before the fault is armed
     pub after_requests: u8,
+    /// seconds the tracker keeps running (and serving) before the fault is armed
+    #[serde(default)]
+    pub uptime_before_fault_s: u8,
 }
 
 fn udp_request_ok(port: u16) -> bool {
@@ -232,6 +235,12 @@ pub fn child_main(args: &[String]) -> i32 {
         for _ in 1..case.after_requests {
             request(true);
         }
+        // let the tracker age: a supervision loop must notice a death at any later time as well
+        let until = Instant::now() + Duration::from_secs(case.uptime_before_fault_s as u64);
+        while Instant::now() < until {
+            request(true);
+            std::thread::sleep(Duration::from_millis(500));
+        }
         armed.store(true, Ordering::SeqCst);
         if matches!(case.fault, Fault::ReverseProxyRequestWithoutHeader) {
             *fault_at.lock().unwrap() = Some(Instant::now());
@@ -359,6 +368,9 @@ pub fn prop(case: &Case) -> CaseResult {
     if total_workers > 1 {
         out.nontrivial = true;
     }
+    if case.uptime_before_fault_s > 0 {
+        out.label("fault-long-after-start");
+    }
     out.label(match case.trk {
         Trk::UdpMio => "udp-mio",
         Trk::UdpUring => "udp-uring",
@@ -390,66 +402,78 @@ pub fn grid(tier: Tier) -> Vec<Case> {
             for trk in [Trk::UdpMio, Trk::UdpUring] {
                 for idx in 1..=so {
                     let t = format!("socket-{:02}", idx);
-                    v.push(Case { trk, socket_workers: so, swarm_workers: 0, fault: probe("udp:socket:loop", &t, true), after_requests: k });
-                    v.push(Case { trk, socket_workers: so, swarm_workers: 0, fault: probe("udp:socket:loop", &t, false), after_requests: k });
+                    v.push(Case { trk, socket_workers: so, swarm_workers: 0, fault: probe("udp:socket:loop", &t, true), after_requests: k, uptime_before_fault_s: 0 });
+                    v.push(Case { trk, socket_workers: so, swarm_workers: 0, fault: probe("udp:socket:loop", &t, false), after_requests: k, uptime_before_fault_s: 0 });
                 }
                 if sw == 1 {
                     for panic in [true, false] {
-                        v.push(Case { trk, socket_workers: so, swarm_workers: 0, fault: probe("udp:cleaning:loop", "cleaning", panic), after_requests: k });
-                        v.push(Case { trk, socket_workers: so, swarm_workers: 0, fault: probe("udp:statistics:loop", "statistics", panic), after_requests: k });
-                        v.push(Case { trk, socket_workers: so, swarm_workers: 0, fault: probe("udp:signals:loop", "signals", panic), after_requests: k });
+                        v.push(Case { trk, socket_workers: so, swarm_workers: 0, fault: probe("udp:cleaning:loop", "cleaning", panic), after_requests: k, uptime_before_fault_s: 0 });
+                        v.push(Case { trk, socket_workers: so, swarm_workers: 0, fault: probe("udp:statistics:loop", "statistics", panic), after_requests: k, uptime_before_fault_s: 0 });
+                        v.push(Case { trk, socket_workers: so, swarm_workers: 0, fault: probe("udp:signals:loop", "signals", panic), after_requests: k, uptime_before_fault_s: 0 });
                     }
                 }
             }
             // --- HTTP
             for idx in 1..=so {
                 let t = format!("socket-{:02}", idx);
-                v.push(Case { trk: Trk::Http, socket_workers: so, swarm_workers: sw, fault: probe("http:socket:accept", &t, true), after_requests: k });
-                v.push(Case { trk: Trk::Http, socket_workers: so, swarm_workers: sw, fault: probe("http:socket:accept", &t, false), after_requests: k });
-                v.push(Case { trk: Trk::Http, socket_workers: so, swarm_workers: sw, fault: probe("http:socket:conn", &t, true), after_requests: k });
+                v.push(Case { trk: Trk::Http, socket_workers: so, swarm_workers: sw, fault: probe("http:socket:accept", &t, true), after_requests: k, uptime_before_fault_s: 0 });
+                v.push(Case { trk: Trk::Http, socket_workers: so, swarm_workers: sw, fault: probe("http:socket:accept", &t, false), after_requests: k, uptime_before_fault_s: 0 });
+                v.push(Case { trk: Trk::Http, socket_workers: so, swarm_workers: sw, fault: probe("http:socket:conn", &t, true), after_requests: k, uptime_before_fault_s: 0 });
             }
             for idx in 1..=sw {
                 let t = format!("swarm-{:02}", idx);
-                v.push(Case { trk: Trk::Http, socket_workers: so, swarm_workers: sw, fault: probe("http:swarm:request", &t, true), after_requests: k });
-                v.push(Case { trk: Trk::Http, socket_workers: so, swarm_workers: sw, fault: probe("http:swarm:clean", &t, true), after_requests: k });
+                v.push(Case { trk: Trk::Http, socket_workers: so, swarm_workers: sw, fault: probe("http:swarm:request", &t, true), after_requests: k, uptime_before_fault_s: 0 });
+                v.push(Case { trk: Trk::Http, socket_workers: so, swarm_workers: sw, fault: probe("http:swarm:clean", &t, true), after_requests: k, uptime_before_fault_s: 0 });
                 if so == 1 {
-                    v.push(Case { trk: Trk::Http, socket_workers: so, swarm_workers: sw, fault: probe("http:swarm:request", &t, false), after_requests: k });
+                    v.push(Case { trk: Trk::Http, socket_workers: so, swarm_workers: sw, fault: probe("http:swarm:request", &t, false), after_requests: k, uptime_before_fault_s: 0 });
                 }
             }
             // --- WS
             for idx in 1..=so {
                 let t = format!("socket-{:02}", idx);
-                v.push(Case { trk: Trk::Ws, socket_workers: so, swarm_workers: sw, fault: probe("ws:socket:accept", &t, true), after_requests: k });
-                v.push(Case { trk: Trk::Ws, socket_workers: so, swarm_workers: sw, fault: probe("ws:socket:accept", &t, false), after_requests: k });
-                v.push(Case { trk: Trk::Ws, socket_workers: so, swarm_workers: sw, fault: probe("ws:socket:conn", &t, true), after_requests: k });
+                v.push(Case { trk: Trk::Ws, socket_workers: so, swarm_workers: sw, fault: probe("ws:socket:accept", &t, true), after_requests: k, uptime_before_fault_s: 0 });
+                v.push(Case { trk: Trk::Ws, socket_workers: so, swarm_workers: sw, fault: probe("ws:socket:accept", &t, false), after_requests: k, uptime_before_fault_s: 0 });
+                v.push(Case { trk: Trk::Ws, socket_workers: so, swarm_workers: sw, fault: probe("ws:socket:conn", &t, true), after_requests: k, uptime_before_fault_s: 0 });
             }
             for idx in 1..=sw {
                 let t = format!("swarm-{:02}", idx);
-                v.push(Case { trk: Trk::Ws, socket_workers: so, swarm_workers: sw, fault: probe("ws:swarm:request", &t, true), after_requests: k });
-                v.push(Case { trk: Trk::Ws, socket_workers: so, swarm_workers: sw, fault: probe("ws:swarm:control", &t, true), after_requests: k });
-                v.push(Case { trk: Trk::Ws, socket_workers: so, swarm_workers: sw, fault: probe("ws:swarm:clean", &t, true), after_requests: k });
+                v.push(Case { trk: Trk::Ws, socket_workers: so, swarm_workers: sw, fault: probe("ws:swarm:request", &t, true), after_requests: k, uptime_before_fault_s: 0 });
+                v.push(Case { trk: Trk::Ws, socket_workers: so, swarm_workers: sw, fault: probe("ws:swarm:control", &t, true), after_requests: k, uptime_before_fault_s: 0 });
+                v.push(Case { trk: Trk::Ws, socket_workers: so, swarm_workers: sw, fault: probe("ws:swarm:clean", &t, true), after_requests: k, uptime_before_fault_s: 0 });
             }
         }
         // --- faults at start and set-up failures (hook-free)
         for trk in [Trk::UdpMio, Trk::UdpUring, Trk::Http, Trk::Ws] {
-            v.push(Case { trk, socket_workers: so, swarm_workers: sw, fault: Fault::UnbindableAddress, after_requests: 0 });
-            v.push(Case { trk, socket_workers: so, swarm_workers: sw, fault: Fault::PrometheusPortOccupied, after_requests: 0 });
+            v.push(Case { trk, socket_workers: so, swarm_workers: sw, fault: Fault::UnbindableAddress, after_requests: 0, uptime_before_fault_s: 0 });
+            v.push(Case { trk, socket_workers: so, swarm_workers: sw, fault: Fault::PrometheusPortOccupied, after_requests: 0, uptime_before_fault_s: 0 });
             let sig = match trk {
                 Trk::UdpMio | Trk::UdpUring => "udp:signals:start",
                 Trk::Http => "http:signals:start",
                 Trk::Ws => "ws:signals:start",
             };
             for panic in [true, false] {
-                v.push(Case { trk, socket_workers: so, swarm_workers: sw, fault: probe(sig, "signals", panic), after_requests: 0 });
+                v.push(Case { trk, socket_workers: so, swarm_workers: sw, fault: probe(sig, "signals", panic), after_requests: 0, uptime_before_fault_s: 0 });
             }
         }
         for trk in [Trk::UdpMio, Trk::UdpUring] {
-            v.push(Case { trk, socket_workers: so, swarm_workers: sw, fault: probe("udp:socket:loop", "socket-01", true), after_requests: 0 });
-            v.push(Case { trk, socket_workers: so, swarm_workers: sw, fault: probe("udp:cleaning:loop", "cleaning", false), after_requests: 0 });
+            v.push(Case { trk, socket_workers: so, swarm_workers: sw, fault: probe("udp:socket:loop", "socket-01", true), after_requests: 0, uptime_before_fault_s: 0 });
+            v.push(Case { trk, socket_workers: so, swarm_workers: sw, fault: probe("udp:cleaning:loop", "cleaning", false), after_requests: 0, uptime_before_fault_s: 0 });
         }
-        v.push(Case { trk: Trk::Http, socket_workers: so, swarm_workers: sw, fault: Fault::ReverseProxyRequestWithoutHeader, after_requests: 2 });
-        v.push(Case { trk: Trk::Http, socket_workers: so, swarm_workers: sw, fault: probe("http:swarm:clean", "swarm-01", true), after_requests: 0 });
-        v.push(Case { trk: Trk::Ws, socket_workers: so, swarm_workers: sw, fault: probe("ws:swarm:clean", "swarm-01", true), after_requests: 0 });
+        v.push(Case { trk: Trk::Http, socket_workers: so, swarm_workers: sw, fault: Fault::ReverseProxyRequestWithoutHeader, after_requests: 2, uptime_before_fault_s: 0 });
+        v.push(Case { trk: Trk::Http, socket_workers: so, swarm_workers: sw, fault: probe("http:swarm:clean", "swarm-01", true), after_requests: 0, uptime_before_fault_s: 0 });
+        v.push(Case { trk: Trk::Ws, socket_workers: so, swarm_workers: sw, fault: probe("ws:swarm:clean", "swarm-01", true), after_requests: 0, uptime_before_fault_s: 0 });
+    }
+    // faults long after start-up (the supervision must not slow down or stop looking): the
+    // tracker serves requests for 17 s / 45 s first. A few per tracker; they run in parallel.
+    let late: Vec<u8> = tier.pick(vec![17, 45], vec![17, 33, 45, 70]);
+    for up in late {
+        v.push(Case { trk: Trk::UdpMio, socket_workers: 2, swarm_workers: 0, fault: probe("udp:socket:loop", "socket-02", true), after_requests: 1, uptime_before_fault_s: up });
+        v.push(Case { trk: Trk::UdpUring, socket_workers: 1, swarm_workers: 0, fault: probe("udp:socket:loop", "socket-01", false), after_requests: 1, uptime_before_fault_s: up });
+        v.push(Case { trk: Trk::UdpMio, socket_workers: 1, swarm_workers: 0, fault: probe("udp:cleaning:loop", "cleaning", true), after_requests: 1, uptime_before_fault_s: up });
+        v.push(Case { trk: Trk::Http, socket_workers: 2, swarm_workers: 2, fault: probe("http:swarm:request", "swarm-02", true), after_requests: 1, uptime_before_fault_s: up });
+        v.push(Case { trk: Trk::Http, socket_workers: 1, swarm_workers: 1, fault: probe("http:socket:accept", "socket-01", false), after_requests: 1, uptime_before_fault_s: up });
+        v.push(Case { trk: Trk::Ws, socket_workers: 2, swarm_workers: 2, fault: probe("ws:socket:conn", "socket-01", true), after_requests: 1, uptime_before_fault_s: up });
+        v.push(Case { trk: Trk::Ws, socket_workers: 1, swarm_workers: 2, fault: probe("ws:swarm:clean", "swarm-02", true), after_requests: 1, uptime_before_fault_s: up });
     }
     let mut seen = std::collections::HashSet::new();
     v.retain(|c| seen.insert(c.clone()));
@@ -467,12 +491,12 @@ pub fn run(ctx: &mut Ctx) {
         Tier::Quick => {
             // deterministic sample of the grid: every 3rd case, offset by the seed
             let off = (ctx.seed % 3) as usize;
-            all.into_iter().enumerate().filter(|(i, _)| i % 3 == off).map(|(_, c)| c).collect()
+            all.into_iter().enumerate().filter(|(i, c)| i % 3 == off || c.uptime_before_fault_s > 0).map(|(_, c)| c).collect()
         }
     };
     let exhaustive = ctx.tier == Tier::Thorough;
     ctx.run_enum("faults", cases, exhaustive, prop);
-    for l in ["udp-mio", "udp-uring", "http", "ws", "panic", "return", "setup-failure"] {
+    for l in ["udp-mio", "udp-uring", "http", "ws", "panic", "return", "setup-failure", "fault-long-after-start"] {
         ctx.require_label("faults", l, 0.03);
     }
 }
